@@ -33,6 +33,10 @@
    guards on `disposing`, queueRunning (WhenQueueEnds registers only while the
    queue runs), ProcessWhenQueueEnds at the tail. The re-check of the queue
    after the release (C04) is not modelled: one workload goroutine.
+   Eval(fn) (the other workload): PrependMut + the same processQueue points
+   (no q:enq, no tx:*; after the eval the loop `continue`s, so pq:pop is
+   followed by pq:release), then Eval's select on done / EvalTimeout / the
+   machine context.
 
    [fixes]: one switch per candidate repair of /repo; [no_fixes] is the code
    as found. Proof-free. *)
@@ -45,15 +49,16 @@ Record fixes := {
   fx_recheck : bool;      (* When / WhenQuery test `disposed` again under the lock and return Closed *)
   fx_nil_guard : bool;    (* When / WhenArgs return Closed when mustParseStates returns nil *)
   fx_ctx_closed : bool;   (* NewStateCtx returns a cancelled context while disposing (not context.TODO()) *)
-  fx_ctx_watch : bool     (* the parent context is watched even without a handler binding *)
+  fx_ctx_watch : bool;    (* the parent context is watched even without a handler binding *)
+  fx_err_guard : bool     (* nothing is sent on errInternal after doDispose closed it (or it is not closed) *)
 }.
 
 Definition no_fixes : fixes :=
   {| fx_close_query := false; fx_recheck := false; fx_nil_guard := false;
-     fx_ctx_closed := false; fx_ctx_watch := false |}.
+     fx_ctx_closed := false; fx_ctx_watch := false; fx_err_guard := false |}.
 Definition all_fixes : fixes :=
   {| fx_close_query := true; fx_recheck := true; fx_nil_guard := true;
-     fx_ctx_closed := true; fx_ctx_watch := true |}.
+     fx_ctx_closed := true; fx_ctx_watch := true; fx_err_guard := true |}.
 
 (* kinds of threads / calls *)
 Inductive kind :=
@@ -73,7 +78,7 @@ Inductive kind :=
   | KFalse        (* IsErr: false either way *)
   | KNum          (* Tick(B) Clock(nil) ActiveStates([B]) Index1(B): non-zero on a live machine *)
   | KTime         (* Time(nil): guarded by disposed *)
-  | KEval
+  | KEval         (* Eval(fn): the workload goroutine running an eval through the queue *)
   | KMut          (* Remove Set Toggle CanAdd CanRemove AddErr: guarded by disposing *)
   | KOther.
 
@@ -82,7 +87,8 @@ Inductive wkind := WWhen | WQuery | WNot | WTime | WArgs | WQueue | WQueueEnds |
 
 Inductive res :=
   | RNone | RPanic | RClosed | ROpen (w : nat) | RCanceled | RExecuted | RQueued
-  | RBool (b : bool) | RZero | RNonzero | RVoid.
+  | RBool (b : bool) | RZero | RNonzero | RVoid
+  | REither.  (* Eval whose function ran and whose machine context is cancelled: select picks either case *)
 
 Record waiter := { w_kind : wkind; w_closed : bool; w_stage : nat }.
 
@@ -175,6 +181,26 @@ Definition goto (t : thread) (p : pc) : thread :=
 Definition keep (t : thread) (r : res) : res :=
   match th_res t with RNone => r | x => x end.
 
+(* what Eval returns once PrependMut is back: true if its function ran
+   (either answer if the machine context is cancelled as well: select picks a
+   ready case at random); otherwise it waits for EvalTimeout or the machine
+   context; on the timeout it reports on errInternal, which doDispose has
+   closed from dispose:subs on: send on closed channel *)
+Definition eval_res (fx : fixes) (d : dcore) (y : res) : res :=
+  match y with
+  | RExecuted => if 0 <? n_end d then REither else RBool true
+  | _ =>
+    if (0 <? n_prep d) && Nat.eqb (n_end d) 0 && negb (fx_err_guard fx) then RPanic else RBool false
+  end.
+
+(* the result of the workload goroutine's call, from the Result of its
+   processQueue *)
+Definition wl_res (fx : fixes) (d : dcore) (t : thread) (x : res) : res :=
+  match th_kind t with
+  | KEval => eval_res fx d (keep t x)
+  | _ => keep t x
+  end.
+
 (* the single action of a one-action call *)
 Definition simple_call (fx : fixes) (d : dcore) (r : rest) (k : kind) : rest * res :=
   let d1 := disposing d in
@@ -199,7 +225,6 @@ Definition simple_call (fx : fixes) (d : dcore) (r : rest) (k : kind) : rest * r
   | KFalse => (r, RBool false)
   | KNum => (r, if d1 then RZero else RNonzero)
   | KTime => (r, if d2 then RZero else RNonzero)
-  | KEval => (r, RBool (negb d1))
   | KMut => (r, if d1 then RCanceled else RExecuted)
   | _ => (r, RVoid)
   end.
@@ -213,6 +238,10 @@ Definition api_step (fx : fixes) (d : dcore) (r : rest) (t : thread) : rest * th
     match th_kind t with
     | KWhen | KWhenQuery => if d2 then (r, finish t RClosed) else (r, goto t PChecked)
     | KAdd => if d1 then (r, finish t RCanceled) else (r, goto t PAEnq)
+    | KEval =>
+      (* Eval's and PrependMut's guards, then the eval mutation is prepended *)
+      if d1 then (r, finish t (RBool false))
+      else (set_queue r (S (qlen r)) (processing r) (qrunning r), goto t PAEntry)
     | k => let '(r', x) := simple_call fx d r k in (r', finish t x)
     end
   | PChecked =>
@@ -228,16 +257,24 @@ Definition api_step (fx : fixes) (d : dcore) (r : rest) (t : thread) : rest * th
     if locked d then (r, t)
     else (set_queue r (S (qlen r)) (processing r) (qrunning r), goto t PAEntry)
   | PAEntry =>
-    if Nat.eqb (qlen r) 0 || d1 then (r, finish t (keep t RCanceled)) else (r, goto t PACas)
+    if Nat.eqb (qlen r) 0 || d1 then (r, finish t (wl_res fx d t RCanceled)) else (r, goto t PACas)
   | PACas =>
-    if processing r then (if locked d then (r, t) else (r, finish t (keep t RQueued)))
+    if processing r then (if locked d then (r, t) else (r, finish t (wl_res fx d t RQueued)))
     else (set_queue r (qlen r) true false, goto t PALoop)
   | PALoop =>
     if Nat.eqb (qlen r) 0 then (r, goto t PARelease)
     else (set_queue r (qlen r) (processing r) true, goto t PAPop)
   | PAPop =>
-    if d1 then (r, finish t RCanceled)
-    else (set_queue r (qlen r - 1) (processing r) (qrunning r), goto t PAApplied)
+    if d1 then (r, finish t (wl_res fx d t RCanceled))
+    else match th_kind t with
+         | KEval =>
+           (* the eval runs; `continue`: the loop condition is part of this action *)
+           (set_queue r (qlen r - 1) (processing r) (qrunning r),
+            {| th_kind := th_kind t;
+               th_pc := if Nat.eqb (qlen r - 1) 0 then PARelease else PAPop;
+               th_res := keep t RExecuted |})
+         | _ => (set_queue r (qlen r - 1) (processing r) (qrunning r), goto t PAApplied)
+         end
   | PAApplied =>
     (* the rest of emitEvents: the transition's result is Is(target), false
        while disposing; with a handler binding the final handlers report
@@ -250,7 +287,7 @@ Definition api_step (fx : fixes) (d : dcore) (r : rest) (t : thread) : rest * th
   | PARelease => (set_queue r (qlen r) false false, goto t PAReleased)
   | PAReleased =>
     if locked d then (r, t)
-    else (set_waiters r (close_if is_qe (waiters r)), finish t (keep t RCanceled))
+    else (set_waiters r (close_if is_qe (waiters r)), finish t (wl_res fx d t RCanceled))
   | _ => (r, t)
   end.
 
